@@ -53,9 +53,32 @@ static void run_scenario(scen *q, const char *name, const char *desc, int cap) {
   }
 }
 
+/* non-initial header-cache states: the scenario starts with exactly `target` matrix headers in use (64 per cache block), so
+   its first header request has to allocate a new cache block (or finds the last slot of a block, or a fresh block) */
+extern long m4ri_verif_mzd_headers_in_use(void);
+static mzd_t *LIVE[400]; static int nlive;
+static void live_to(long target) { while (m4ri_verif_mzd_headers_in_use() < target && nlive < 400) LIVE[nlive++] = mzd_init(1, 1); }
+static void live_drop(void) { while (nlive > 0) mzd_free(LIVE[--nlive]); m4ri_mmc_cleanup(); }
+
 void prop_enumerate(void) {
   snprintf(TMP, sizeof TMP, "%s", vx_arg("errdir", "/tmp"));
   int cap = vx_tier ? 1200 : 160;
+  if (!strcmp(vx_arg("mode", "fresh"), "prestate")) {
+    static const long TG[] = {64, 128, 63, 65, 127, 192};
+    for (int t = 0; t < (vx_tier ? 6 : 4); t++) {
+      char d[48];
+      for (int a = 0; a < 3; a++) { live_to(TG[t]); scen q = {K_CREATE, NULL, NULL, a, 0, NULL}; snprintf(d, sizeof d, "size-class=%d|headers-in-use=%ld", a, TG[t]); run_scenario(&q, "create(mzd_init+mzd_copy)", d, cap); live_drop(); }
+      { pm *c = pm_pat(5, 200, (pat){P_PR, 0, 1}); SM[0] = mzd_from_pm(c); pm_free(c); live_to(TG[t]); scen q = {K_WINDOW, NULL, NULL, 0, 0, NULL}; snprintf(d, sizeof d, "5x200|headers-in-use=%ld", TG[t]); run_scenario(&q, "window(mzd_init_window)", d, cap); live_drop(); mzd_free(SM[0]); SM[0] = NULL; }
+      static const char *ON[] = {"mzd_mul", "mzd_pluq", "mzd_transpose", "mzd_echelonize_m4ri", "mzd_solve_left", "mzd_kernel_left_pluq", "mzd_trsm_upper_left", "mzd_inv_m4ri"};
+      for (int oi = 0; oi < NOPS; oi++) { const vop *o = &OPS[oi]; int want = 0; for (int k = 0; k < 8; k++) if (!strcmp(o->name, ON[k])) want = 1; if (!want || (t >= 2 && !vx_tier)) continue;
+        const oshape *s = &o->shapes[0];
+        for (int k = 0; k < o->nmat; k++) { pm *c = op_content(o, s, k, 0); SM[k] = mzd_from_pm(c); pm_free(c); }
+        live_to(TG[t]); scen q = {K_OP, o, s, 0, 0, NULL}; snprintf(d, sizeof d, "shape=0|headers-in-use=%ld", TG[t]); run_scenario(&q, o->name, d, cap); live_drop();
+        for (int k = 0; k < o->nmat; k++) { mzd_free(SM[k]); SM[k] = NULL; }
+        m4ri_mmc_cleanup(); }
+    }
+    return;
+  }
   /* every registered operation */
   for (int oi = 0; oi < NOPS; oi++) { const vop *o = &OPS[oi];
     for (int si = 0; si < o->nshapes; si++) {
